@@ -646,38 +646,28 @@ func (conn *Conn) closeFor(ctx context.Context) error {
 	if conn.die != nil {
 		conn.die()
 	}
-	// Drain both in and out channels to avoid a deadlock if the buffers
-	// have filled. See TestSendDeadlockOnFullBuffer in connection_test.go.
-	conn.drainIn()
-	conn.drainOut()
-	conn.wg.Wait()
+	// Keep draining both in and out channels until all the goroutines have
+	// exited, to avoid a deadlock if the buffers are full: recv may have
+	// more lines buffered than conn.in can hold, and handlers may still be
+	// sending. See TestSendDeadlockOnFullBuffer in connection_test.go.
+	done := make(chan struct{})
+	go func() {
+		conn.wg.Wait()
+		close(done)
+	}()
+	for drained := false; !drained; {
+		select {
+		case <-conn.in:
+		case <-conn.out:
+		case <-done:
+			drained = true
+		}
+	}
 	conn.mu.Unlock()
 	// Dispatch after closing connection but before reinit
 	// so event handlers can still access state information.
 	conn.dispatch(&Line{Cmd: DISCONNECTED, Time: time.Now()})
 	return err
-}
-
-// drainIn sends all data buffered in conn.in to /dev/null.
-func (conn *Conn) drainIn() {
-	for {
-		select {
-		case <-conn.in:
-		default:
-			return
-		}
-	}
-}
-
-// drainOut does the same for conn.out. Generics!
-func (conn *Conn) drainOut() {
-	for {
-		select {
-		case <-conn.out:
-		default:
-			return
-		}
-	}
 }
 
 // Dumps a load of information about the current state of the connection to a
